@@ -349,7 +349,7 @@ def check_interrupted_sweep(case):
 UNITS = [
     Unit("interrupted_sweep", check_interrupted_sweep, strategy=_interrupted_sweep_cases, quick=18, thorough=500, shards_quick=3,
          doc="every line event and every C-level call of one verify_root interrupted once on a fresh envelope, each followed by a normal retry of the same envelope"),
-    Unit("config", check_config, strategy=_config_cases, quick=24, thorough=400, shards_quick=8, shrink=False,
+    Unit("config", check_config, strategy=_config_cases, quick=96, thorough=600, shards_quick=16, shrink=False,
          doc="the rule holds in fresh interpreters under drawn configurations and discovered environment variables"),
     Unit("pairs", check_pair, essential_min=0.01, strategy=root_pairs, quick=1500, thorough=60000,
          essential=["only-false=version", "only-false=trusted_rule", "only-false=own_rule", "only-false=types",
